@@ -1309,10 +1309,13 @@ condexpr(struct scope *s)
 		}
 	}
 	e = eval(e);
-	if (e->kind == EXPRCONST && e->type->prop & PROPFLOAT)
-		return exprconvert(e->u.constant.f != 0 ? l : r, t);
-	if (e->kind == EXPRCONST && e->type->prop & PROPINT)
-		return exprconvert(e->u.constant.u ? l : r, t);
+	if (e->kind == EXPRCONST && e->type->prop & (PROPFLOAT|PROPINT)) {
+		e = exprconvert((e->type->prop & PROPFLOAT ? e->u.constant.f != 0 : e->u.constant.u != 0) ? l : r, t);
+		/* the result is a value: not an lvalue, and no longer the array or function it decayed from */
+		if ((e->lvalue || e->decayed) && t->prop & PROPSCALAR)
+			e = mkexpr(EXPRCAST, t, e);
+		return e;
+	}
 	e = mkexpr(EXPRCOND, t, e);
 	e->u.cond.t = l;
 	e->u.cond.f = r;
